@@ -1,3 +1,6 @@
+(* ADDED IN THE THIRD ROUND (CrashClear4.v): a failing storage operation of an append or clear is the journal cut at that operation, the call answers
+   the error, and reopening recovers before/after (C10_fault_is_a_cut_of_the_call, C10_failed_append_recovers, C10_failed_clear_recovers).
+   ---- header of the earlier rounds: ---- *)
 (* C10 — a storage error surfaces as an error and is recoverable by reopening (pinned statements; proofs in
    Fault.v). Storage::flush_infos applies storage operations in order and stops at the first failure.
    Proved: a flush in which operation number k fails reports the I/O error, leaves core and events untouched,
@@ -10,6 +13,7 @@
    run by tools/c10.py, which injects one I/O error at EVERY storage operation (reads and length queries
    included, during open too) of every generated history: the call must answer an error — never success, a panic
    or a hang — and reopening must show the before-or-after state with everything earlier intact. *)
+From HC Require Import Refine ClearRefine Unified1 CrashClear1 CrashClear2 CrashClear4.
 From HC Require Import Base NMap Codec Crypto FlatTree Storage Bitfield Oplog Merkle Core CoreFacts Fault.
 
 Theorem C10_failed_flush_is_a_cut : forall ops k c w c1 w1,
@@ -36,6 +40,93 @@ Theorem C10_journal_prefixes_apply : forall d l d' k,
   exists dk, apply_sops d (firstn k l) = Some dk /\ apply_sops dk (skipn k l) = Some d'.
 Proof. exact apply_sops_prefix. Qed.
 
+Theorem C10_fault_is_a_cut_of_the_call :
+  forall (A : Type) (m mf : M A) (k : nat) (c : core) (d : disk) (j : list sop) (ev : list event) 
+           (c' : core) (w' : world) (x : A) (delta : list sop),
+         fsim (Datatypes.length j + k) m mf ->
+         m c {| w_disk := d; w_journal := j; w_events := ev |} = (c', w', Ok x) ->
+         w_journal w' = rev delta ++ j ->
+         (k < Datatypes.length delta)%nat ->
+         exists (ck : core) (wk : world),
+           mf c {| w_disk := d; w_journal := j; w_events := ev |} = (ck, wk, Err IOErr) /\
+           w_journal wk = rev (firstn k delta) ++ j /\ apply_sops d (firstn k delta) = Some (w_disk wk).
+Proof. intros A. exact fault_is_cut. Qed.
+
+Theorem C10_fault_beyond_the_call :
+  forall (A : Type) (m mf : M A) (k : nat) (c : core) (d : disk) (j : list sop) (ev : list event) 
+           (c' : core) (w' : world) (x : A) (delta : list sop),
+         fsim (Datatypes.length j + k) m mf ->
+         m c {| w_disk := d; w_journal := j; w_events := ev |} = (c', w', Ok x) ->
+         w_journal w' = rev delta ++ j ->
+         (Datatypes.length delta <= k)%nat ->
+         mf c {| w_disk := d; w_journal := j; w_events := ev |} = (c', w', Ok x).
+Proof. intros A. exact fault_beyond_end. Qed.
+
+Theorem C10_failed_append_recovers :
+  forall cr : crypto,
+         OplogFacts.crc_ok cr ->
+         (forall x : bytes, Datatypes.length (cr_hash cr x) = 32%nat) ->
+         (forall x : bytes, all_zero (cr_hash cr x) = false) ->
+         (forall x : bytes, bytes_ok (cr_hash cr x) = true) ->
+         (forall sk m : bytes, Datatypes.length (cr_sign cr sk m) = 64%nat) ->
+         (forall sk m : bytes, bytes_ok (cr_sign cr sk m) = true) ->
+         forall (f : option bool) (batch : list bytes) (c : core) (d : disk) (j : list sop) 
+           (ev : list event) (bs : list bytes) (cl : N -> bool) (sk : bytes) (c' : core) 
+           (w' : world) (x : N * N) (delta : list sop) (k : nat),
+         YInv cr c d bs cl ->
+         kp_secret (c_keypair c) = Some sk ->
+         sumN (map len (bs ++ batch)) <= u64_max ->
+         NODE_SIZE * (2 * N.of_nat (Datatypes.length (bs ++ batch))) <= u64_max ->
+         core_append cr f batch c {| w_disk := d; w_journal := j; w_events := ev |} = (c', w', Ok x) ->
+         w_journal w' = rev delta ++ j ->
+         (k < Datatypes.length delta)%nat ->
+         exists (ck : core) (wk : world),
+           core_append_E cr (emit_lim (Datatypes.length j + k)) f batch c
+             {| w_disk := d; w_journal := j; w_events := ev |} = (ck, wk, Err IOErr) /\
+           w_journal wk = rev (firstn k delta) ++ j /\
+           apply_sops d (firstn k delta) = Some (w_disk wk) /\
+           (exists (c2 : core) (d2 : disk) (ops2 : list sop),
+              core_open cr None true (w_disk wk) = (d2, ops2, Ok c2) /\
+              (if (k <? 2)%nat
+               then YInv cr c2 d2 bs cl
+               else YInv cr c2 d2 (bs ++ batch) (cl_mask cl (N.of_nat (Datatypes.length bs)))) /\
+              c_keypair c2 = c_keypair c).
+Proof. exact append_fault_recovers. Qed.
+
+Theorem C10_failed_clear_recovers :
+  forall cr : crypto,
+         OplogFacts.crc_ok cr ->
+         (forall x : bytes, Datatypes.length (cr_hash cr x) = 32%nat) ->
+         (forall x : bytes, all_zero (cr_hash cr x) = false) ->
+         (forall x : bytes, bytes_ok (cr_hash cr x) = true) ->
+         forall (f : option bool) (c : core) (d : disk) (j : list sop) (ev : list event) 
+           (bs : list bytes) (cl : N -> bool) (start end_ : N) (c' : core) (w' : world) 
+           (r : res unit) (delta : list sop) (k : nat),
+         let n := N.of_nat (Datatypes.length bs) in
+         YInv cr c d bs cl ->
+         start < n ->
+         start < end_ ->
+         end_ <= u64_max ->
+         core_clear cr f start end_ c {| w_disk := d; w_journal := j; w_events := ev |} = (c', w', r) ->
+         w_journal w' = rev delta ++ j ->
+         (k < Datatypes.length delta)%nat ->
+         exists (ck : core) (wk : world),
+           core_clear_E cr (emit_lim (Datatypes.length j + k)) f start end_ c
+             {| w_disk := d; w_journal := j; w_events := ev |} = (ck, wk, Err IOErr) /\
+           w_journal wk = rev (firstn k delta) ++ j /\
+           apply_sops d (firstn k delta) = Some (w_disk wk) /\
+           (exists (c2 : core) (d2 : disk) (ops2 : list sop),
+              core_open cr None true (w_disk wk) = (d2, ops2, Ok c2) /\
+              YInv cr c2 d2 bs (if (k <? 1)%nat then cl else cl_clear cl start end_) /\
+              c_keypair c2 = c_keypair c).
+Proof. exact clear_fault_recovers. Qed.
+
 Print Assumptions C10_failed_flush_is_a_cut.
 Print Assumptions C10_fault_states_are_crash_cuts.
 Print Assumptions C10_journal_prefixes_apply.
+Print Assumptions C10_fault_is_a_cut_of_the_call.
+Print Assumptions C10_fault_beyond_the_call.
+Print Assumptions C10_failed_append_recovers.
+Print Assumptions C10_failed_clear_recovers.
+Print Assumptions CrashClear4.toy_fault_in_clear.
+Print Assumptions CrashClear4.fault_then_continue_loses_acknowledged_appends.
